@@ -17,6 +17,7 @@ pub fn dispatch(op: &str, req: &Value) -> Value {
         "template" => template(req),
         "parts" => parts(req),
         "schema_check" => schema_check(req),
+        "custom_value" => custom_value(req),
         "context" => context(req),
         _ => json!({"error": format!("unknown op {op}")}),
     }
@@ -320,4 +321,10 @@ fn schema_check(req: &Value) -> Value {
         _ => ZervSchema::new(c, e, b).map(|_| ()),
     };
     match r { Ok(()) => json!({"ok": true}), Err(e) => json!({"ok": false, "err": e.to_string()}) }
+}
+
+fn custom_value(req: &Value) -> Value {
+    let mut v = ZervVars::default();
+    v.custom = serde_json::json!({"a": ["x", 7], "b": {"c": "y", "0": true}, "s": "z", "n": null});
+    json!({"value": v.get_custom_value(&cps_to_string(&req["key"]))})
 }
